@@ -58,6 +58,16 @@ FreeSyms(e) ==
     [] e.op = "pow" -> FreeSyms(e.b)
     [] e.op = "fn"  -> FreeSyms(e.a)
 
+\* consistent renaming of symbols (rho: function on names; names outside its domain are kept)
+RECURSIVE RenameExpr(_, _)
+RenameExpr(e, rho) ==
+  CASE e.op = "sym"   -> Sym(IF e.name \in DOMAIN rho THEN rho[e.name] ELSE e.name)
+    [] e.op = "const" -> e
+    [] e.op \in BinOps -> Bin(e.op, RenameExpr(e.l, rho), RenameExpr(e.r, rho))
+    [] e.op = "neg" -> Neg(RenameExpr(e.a, rho))
+    [] e.op = "pow" -> Pow(RenameExpr(e.b, rho), e.n)
+    [] e.op = "fn"  -> Fn(e.f, RenameExpr(e.a, rho))
+
 RECURSIVE Size(_)
 Size(e) ==
   CASE e.op \in {"sym", "const"} -> 1
